@@ -10,6 +10,7 @@ COQ = os.path.join(VERIF, "coq")
 NCPU = min(16, os.cpu_count() or 4)
 ENV = dict(os.environ, CARGO_NET_OFFLINE="true")
 
+TIER = os.environ.get("RRTK_VERIF_TIER", "quick")
 AXIOM_ALLOW = {
     "ClassicalDedekindReals.sig_forall_dec",
     "ClassicalDedekindReals.sig_not_dec",
@@ -150,6 +151,27 @@ def proof_check(pid, gen_theorems=()):
                 res["problems"].append("axioms outside the allow-list: " + ", ".join(bad))
             else:
                 res["discharged"] += min(len(gthms), n_out)
+    # thorough tier: re-check the compiled property files and everything they depend on with the independent checker
+    if ok and TIER != "quick":
+        for prop in props:
+            mod = "RRTK.Properties." + os.path.basename(prop)[:-2]
+            p = sh("timeout 2400 coqchk -o -silent -Q theories RRTK %s" % mod, cwd=COQ, check=False, timeout=2500)
+            out = p.stdout
+            m = re.search(r"\* Axioms:(.*?)\n\s*\n\* Constants/Inductives relying on type-in-type:(.*?)\n\s*\n\* Constants/Inductives relying on unsafe \(co\)fixpoints:(.*?)\n\s*\n\* Inductives whose positivity is assumed:(.*?)\n", out + "\n", re.S)
+            if p.returncode != 0 or not m:
+                res["ok"] = False
+                res["problems"].append("coqchk failed on %s: %s" % (mod, out[-800:]))
+                continue
+            axs = [a.strip() for a in m.group(1).split("\n") if a.strip() and a.strip() != "<none>"]
+            bad = [a for a in axs if not any(a.endswith(x.split(".")[-1]) for x in AXIOM_ALLOW)]
+            for label, g in (("type-in-type", m.group(2)), ("unsafe fixpoints", m.group(3)), ("assumed positivity", m.group(4))):
+                if g.strip() != "<none>":
+                    res["ok"] = False
+                    res["problems"].append("coqchk: %s relies on %s: %s" % (mod, label, g.strip()[:200]))
+            if bad:
+                res["ok"] = False
+                res["problems"].append("coqchk: axioms outside the allow-list in the closure of %s: %s" % (mod, ", ".join(bad)))
+            res.setdefault("coqchk", []).append({"module": mod, "axioms": axs})
     # forbidden vernacular anywhere in the development (comments stripped)
     for f in coq_sources():
         txt = strip_coq_comments(open(f).read())
@@ -224,7 +246,7 @@ def compile_gen_theorems(name, extra_gen=()):
     with Lock("gen" + repo_tag()):
         for f in sorted(os.listdir(g)):
             if f.endswith(".v"):
-                p = sh("timeout 600 coqc -Q . Gen %s" % f, cwd=g, check=False)
+                p = sh("timeout 600 coqc -Q %s/theories RRTK -Q . Gen %s" % (COQ, f), cwd=g, check=False)
                 if p.returncode != 0:
                     return False, p.stdout
         p = sh("timeout 900 coqc -Q theories RRTK -Q %s Gen -w -all gen_theorems/%s.v" % (g, name), cwd=COQ, check=False)
@@ -461,7 +483,7 @@ class Check:
             "obligations": proof["obligations"], "discharged": proof["discharged"],
             "checker_cmd": checker_cmd,
             "trusted_base": trusted + ["axioms reported by Print Assumptions: " + (", ".join(proof["axioms"]) or "none")],
-            "rule": rule, "theorems": proof["theorems"], "notes": self.notes,
+            "rule": rule, "theorems": proof["theorems"], "notes": self.notes, "coqchk": proof.get("coqchk", "thorough tier only"),
         })
         ev = {"property_id": self.pid, "tier": self.tier, "seed": self.seed, "level": "proof",
               "coverage": self.cov, "assumptions": self.assumptions, "wall_s": round(wall, 2),
@@ -488,6 +510,7 @@ def correspondence(chk, cases, tags, exe, drv, okb=None, nontrivial=None, descri
     okb(case, impl_out, model_out) -> (ok, why) decides whether the *property* fails on the implementation."""
     impl = run_sharded(exe, cases)
     model = run_sharded(drv, cases, extra_env=pow_env)
+    in_coq_sample(chk, cases, model)
     n_bad = 0
     first_nofail = None
     for i, c in enumerate(cases):
@@ -530,6 +553,46 @@ def correspondence(chk, cases, tags, exe, drv, okb=None, nontrivial=None, descri
     elif first_nofail is not None:
         chk.notes.append("correspondence also differs on cases where the property oracle is satisfied (first: %s)" % (first_nofail[1],))
     return impl, model
+
+
+INCOQ_HDR = """From Coq Require Import ZArith List Bool. Import ListNotations.
+From RRTK Require Import Model.Case.
+Open Scope Z_scope.
+Fixpoint leqb (a b : list Z) : bool := match a, b with [], [] => true | x :: a', y :: b' => Z.eqb x y && leqb a' b' | _, _ => false end.
+Fixpoint mism (i : Z) (cs es : list (list Z)) : list Z :=
+  match cs, es with c :: cs', e :: es' => if leqb (run_case c) e then mism (i + 1) cs' es' else i :: mism (i + 1) cs' es' | _, _ => [] end.
+"""
+
+
+def in_coq_sample(chk, cases, model):
+    """cases.v: evaluate a sample of the batch with vm_compute inside Coq (no extraction, no OCaml driver) and compare
+    with what the extracted program printed.  Keeps extraction and the driver honest."""
+    want = 60 if chk.tier == "quick" else 400
+    idx = [i for i in range(len(cases)) if model[i] and isinstance(model[i][0], int) and len(cases[i]) < 1500]
+    if not idx:
+        return
+    step = max(1, len(idx) // want)
+    idx = idx[::step][:want]
+    L = lambda l: "[" + "; ".join("(%d)" % x for x in l) + "]"
+    d = os.path.join(BUILD, "incoq", "%s_%s_%d" % (chk.pid, chk.tier, os.getpid()))
+    os.makedirs(d, exist_ok=True)
+    open(os.path.join(d, "cases.v"), "w").write(INCOQ_HDR + "Definition cs : list (list Z) := [%s].\nDefinition es : list (list Z) := [%s].\nEval vm_compute in mism 0 cs es.\n"
+        % (";\n ".join(L(cases[i]) for i in idx), ";\n ".join(L(model[i]) for i in idx)))
+    p = sh("timeout 900 coqc -noglob -Q %s/theories RRTK cases.v" % COQ, cwd=d, check=False, timeout=1000)
+    m = re.search(r"=\s*\[([^\]]*)\]\s*:\s*list Z", p.stdout)
+    if p.returncode != 0 or not m:
+        chk.violation("in-Coq evaluation (cases.v, vm_compute) of the sampled cases failed: " + p.stdout[-600:],
+                      {"correspondence": "Coq vm_compute of run_case vs extracted OCaml program", "cases_v": os.path.join(d, "cases.v")}, False)
+        return
+    bad = [int(x.strip(" ()%Z")) for x in m.group(1).split(";") if x.strip()]
+    chk.cov["in_coq_vm_compute_cases"] = chk.cov.get("in_coq_vm_compute_cases", 0) + len(idx)
+    if bad:
+        i = idx[bad[0]]
+        chk.violation("extracted model and in-Coq vm_compute of run_case differ on %d sampled case(s)" % len(bad),
+                      {"correspondence": "Coq vm_compute of run_case vs extracted OCaml program", "case": cases[i], "extracted_output": model[i], "cases_v": os.path.join(d, "cases.v")}, False)
+    else:
+        import shutil
+        shutil.rmtree(d, ignore_errors=True)
 
 
 def std_trusted():
